@@ -268,6 +268,9 @@ class Program:
 
     def _qname(self, b):
         """line-number-free, impl-index-free display name used in reports and keys"""
+        if b.kind == "Promoted":
+            parent = self.bodies.get(b.id[:b.id.rfind("::promoted[")])
+            return (self._qname(parent) if parent is not None else b.id) + b.id[b.id.rfind("::promoted["):]
         if b.kind == "Closure":
             root = self.bodies.get(b.root)
             suffix = b.id[len(b.root):] if b.id.startswith(b.root) else "::{closure}"
@@ -282,6 +285,20 @@ class Program:
             return "%s::%s::%s" % (b.crate, st, b.name)
         # free function: crate::module path::name, from def (already line-free)
         return strip_lifetimes(b.j["def"])
+
+    def promoted_value(self, op):
+        """(adt path, variant name) when the operand is a promoted constant `&ADT::Variant`"""
+        if op.get("o") != "const":
+            return None
+        pid = op["k"].get("promoted")
+        if not pid or pid not in self.bodies:
+            return None
+        pb = self.bodies[pid]
+        for bl in pb.blocks:
+            for st in bl["stmts"]:
+                if st["s"] == "assign" and st["rv"]["k"] == "agg" and st["rv"]["ak"] == "adt":
+                    return (st["rv"]["adt"], st["rv"]["vn"])
+        return None
 
     # ---- lookups -------------------------------------------------------------
     def find(self, qname):
